@@ -165,7 +165,7 @@ func genG08(repo string, w *Out) error {
 		w.DefN(pfx+"_parse_hi", v[2])
 		w.DefN(pfx+"_idx", v[3])
 	}
-	if !strings.Contains(r1s, `if idx == 0 { return nil, fmt.Errorf("unrecognized protocol`) ||
+	if !strings.Contains(r1s, `if idx == 0 { return nil, fmt.Errorf(`) ||
 		!strings.Contains(r1s, "b, err := readUntilCRLF(buf, r, idx)") || !strings.HasSuffix(r1s, "return parseV1Header(b) }") {
 		return fmt.Errorf("readV1Header: tail (idx == 0 test, readUntilCRLF(buf, r, idx), parseV1Header(b)) not in the known shape")
 	}
@@ -206,8 +206,8 @@ func genG08(repo string, w *Out) error {
 		if err != nil {
 			return err
 		}
-		want := `{ if len(buf) > 1 && buf[0] == '0' { return 0, errors.New("leading zero") } port, err := strconv.ParseUint(string(buf), 10, 16) if err != nil { return 0, err } return int(port), nil }`
-		if got := f1.Src(pp.Body); got != want {
+		want := regexp.MustCompile(`^\{ if len\(buf\) > 1 && buf\[0\] == '0' \{ return 0, (errors\.New|fmt\.Errorf)\("[^"]*"\) \} port, err := strconv\.ParseUint\(string\(buf\), 10, 16\) if err != nil \{ return 0, err \} return int\(port\), nil \}$`)
+		if got := f1.Src(pp.Body); !want.MatchString(got) {
 			return fmt.Errorf("parsePort is not the shape the model knows: %s", got)
 		}
 		w.DefN("t_port_parser", 2)
@@ -423,6 +423,68 @@ func genG08(repo string, w *Out) error {
 		return fmt.Errorf("net.go: RemoteAddr and LocalAddr differ in their nil-address handling")
 	}
 	w.DefBool("t_addr_nil_fallback", fallback[0])
+	// readHeaderContext: double-checked locking around the single ReadHeader call (Once.v)
+	rc, err := fn.Func("Conn.readHeaderContext")
+	if err != nil {
+		return err
+	}
+	rcs := fn.Src(rc.Body)
+	chk := "if c.isHeaderRead.Load() { return c.headerErr }"
+	lockS := "c.headerMu.Lock() defer c.headerMu.Unlock()"
+	li := strings.Index(rcs, lockS)
+	if li < 0 {
+		return fmt.Errorf("net.go: readHeaderContext does not take c.headerMu with a deferred unlock")
+	}
+	w.DefBool("t_once_fast", strings.HasPrefix(rcs, "{ "+chk+" "+lockS))
+	w.DefBool("t_once_recheck", strings.HasPrefix(rcs[li:], lockS+" "+chk))
+	if g08count(rcs, "ReadHeader(c.Conn)") != 1 {
+		return fmt.Errorf("net.go: readHeaderContext does not call ReadHeader(c.Conn) exactly once")
+	}
+	iStore, iErr, iHdr := strings.Index(rcs, "c.isHeaderRead.Store(true)"), strings.LastIndex(rcs, "c.headerErr = "), strings.LastIndex(rcs, "c.header = *r.header")
+	if iStore < 0 || iErr < 0 || iHdr < 0 || iErr > iStore || iHdr > iStore || g08count(rcs, "c.isHeaderRead.Store(") != 1 {
+		return fmt.Errorf("net.go: readHeaderContext does not assign c.header and c.headerErr before the single c.isHeaderRead.Store(true)")
+	}
+	if !strings.HasSuffix(rcs, "c.isHeaderRead.Store(true) return c.headerErr }") {
+		return fmt.Errorf("net.go: readHeaderContext does not end with Store(true); return c.headerErr")
+	}
+	for _, name := range []string{"Conn.ReadFrom", "Conn.WriteTo"} {
+		fd, err := fn.Func(name)
+		if err != nil {
+			return err
+		}
+		if !strings.HasPrefix(fn.Src(fd.Body), "{ if err := c.readHeader(); err != nil { return 0, err } return c.Conn.") {
+			return fmt.Errorf("net.go: %s does not start with the readHeader guard", name)
+		}
+	}
+	// forwarder's Listener: the PROXY-protocol listener wraps the raw TCP listener (so the header precedes TLS and
+	// everything else), gets its timeout from the configuration, and TLS is applied to the accepted connection
+	ff, err := Parse(repo, "net.go")
+	if err != nil {
+		return err
+	}
+	ll, err := ff.Func("Listener.Listen")
+	if err != nil {
+		return err
+	}
+	lls := ff.Src(ll.Body)
+	iRaw := strings.Index(lls, "ll, err := l.listen()")
+	iPP := strings.Index(lls, "if l.ProxyProtocolConfig != nil { ll = &proxyproto.Listener{Listener: ll, ReadHeaderTimeout: l.ProxyProtocolConfig.ReadHeaderTimeout} }")
+	if iPP < 0 {
+		iPP = strings.Index(lls, "if l.ProxyProtocolConfig != nil { ll = &proxyproto.Listener{ Listener: ll, ReadHeaderTimeout: l.ProxyProtocolConfig.ReadHeaderTimeout, } }")
+	}
+	iRate := strings.Index(lls, "ratelimit.NewListener(ll,")
+	if iRaw < 0 || iPP < iRaw || (iRate >= 0 && iRate < iPP) || strings.Contains(lls, "tls.") {
+		return fmt.Errorf("net.go: Listener.Listen does not wrap the raw listener in proxyproto.Listener (timeout from the configuration) before anything else")
+	}
+	la, err := ff.Func("Listener.Accept")
+	if err != nil {
+		return err
+	}
+	las := ff.Src(la.Body)
+	if !strings.HasPrefix(las, "{ conn, err := l.listener.Accept()") || !strings.Contains(las, "conn = tls.Server(conn, l.TLSConfig)") {
+		return fmt.Errorf("net.go: Listener.Accept does not accept from the stacked listener and apply TLS on top")
+	}
+	w.DefBool("t_pp_wraps_raw_listener", true)
 	// Read/Write must go through readHeader first
 	for _, name := range []string{"Conn.Read", "Conn.Write"} {
 		fd, err := fn.Func(name)
